@@ -254,9 +254,9 @@ namespace nmtools::view
             }
             auto sliced = [&](){
                 if constexpr (meta::is_pointer_v<array_type>) {
-                    return apply_slice(*array, slices);
+                    return view::apply_slice(*array, slices);
                 } else {
-                    return apply_slice(array, slices);
+                    return view::apply_slice(array, slices);
                 }
             }();
             auto flattened = unwrap(view::flatten(sliced));
